@@ -205,7 +205,7 @@ func parseTypeSpec(b *Block) (*TypeSpec, error) {
 			ts.OnEvent = append(ts.OnEvent, oe)
 		case "env":
 			ts.Env = strings.TrimSpace(c.Text)
-		case "props", "note", "recv":
+		case "props", "note", "recv", "promoted":
 		default:
 			return nil, fmt.Errorf("%s:%d: unknown type clause %q", c.File, c.Line, c.Kind)
 		}
